@@ -144,7 +144,18 @@ theorem c_kBlk (sh : Sh) (pp : PPc) (app : SpscA.PPc) (acp : SpscA.CPc) (hi : Na
     (h : Inv ⟨sh, pp, .kBlk hi, app, acp⟩) (hs : step ⟨sh, pp, .kBlk hi, app, acp⟩ (.cons e) = some s') : Inv s' := by
   obtain rfl : acp = .kGet := h.projc
   openC
-  subst cloc
+  simp only [Option.some.injEq] at hs
+  subst hs
+  splitC
+  case ploc => frameP
+  fin
+
+set_option maxHeartbeats 1000000 in
+theorem c_kRd (sh : Sh) (pp : PPc) (app : SpscA.PPc) (acp : SpscA.CPc) (hb hi : Nat) (e : Env) (s' : St)
+    (h : Inv ⟨sh, pp, .kRd hb hi, app, acp⟩) (hs : step ⟨sh, pp, .kRd hb hi, app, acp⟩ (.cons e) = some s') : Inv s' := by
+  obtain rfl : acp = .kGet := h.projc
+  openC
+  obtain ⟨rfl, rfl⟩ := cloc
   have hlt := ainv.cget (Or.inr rfl)
   simp only [] at hlt
   have hv : sh.val sh.headBlk (sh.headIdx % sh.B) = sh.a.val sh.a.head := by grind
